@@ -72,24 +72,27 @@ Definition wtx_weight (c : picc) : Z :=
   plan_weight (plan c) + match pend c with Some (_, ws, _) => 1 + len ws | None => 0 end.
 
 Lemma plan_weight_nonneg pl : 0 <= plan_weight pl.
-Proof. induction pl as [|ws pl IH]; cbn; [lia|]. pose proof (len_nonneg ws). lia. Qed.
+Proof. induction pl as [|ws pl IH]; [cbn; lia|].
+  change (plan_weight (ws :: pl)) with (len ws + plan_weight pl). pose proof (len_nonneg ws). lia. Qed.
+Lemma plan_weight_cons ws pl : plan_weight (ws :: pl) = len ws + plan_weight pl.
+Proof. reflexivity. Qed.
 Lemma wtx_weight_nonneg c : 0 <= wtx_weight c.
 Proof. unfold wtx_weight. pose proof (plan_weight_nonneg (plan c)).
   destruct (pend c) as [[[w ws] b]|]; [pose proof (len_nonneg ws)|]; lia. Qed.
 
-Lemma picc_emit_spec c0 blk :
-  pend c0 = None ->
-  exists c', picc_emit c0 blk = (c', Some (last c')) /\ same_core c0 c' /\ emitted blk c' /\
-             wtx_weight c' <= wtx_weight c0.
+Lemma picc_emit_spec c0 blk c' r :
+  pend c0 = None -> picc_emit c0 blk = (c', r) ->
+  r = Some (last c') /\ same_core c0 c' /\ emitted blk c' /\ wtx_weight c' <= wtx_weight c0.
 Proof.
-  intro Hp. unfold picc_emit, wtx_weight. rewrite Hp.
+  intros Hp. unfold picc_emit, wtx_weight. rewrite Hp.
   destruct (plan c0) as [|ws pl] eqn:Epl; cbn [tl].
-  - eexists. split; [reflexivity|]. cbn. split; [repeat split|]. split; [apply Em_direct; reflexivity|]. lia.
-  - destruct ws as [|w ws'].
-    + eexists. split; [reflexivity|]. cbn [last bn rxbuf txrest execs pend plan]. split; [repeat split|].
-      split; [apply Em_direct; reflexivity|]. cbn. lia.
-    + eexists. split; [reflexivity|]. cbn [last bn rxbuf txrest execs pend plan]. split; [repeat split|].
-      split; [eapply Em_wtx; reflexivity|]. cbn [plan_weight fold_right]. rewrite len_cons. lia.
+  - intro H; inversion H; subst; clear H. cbn [last bn rxbuf txrest execs pend plan].
+    split; [reflexivity|]. split; [repeat split|]. split; [apply Em_direct; reflexivity|]. lia.
+  - destruct ws as [|w ws']; intro H; inversion H; subst; clear H; cbn [last bn rxbuf txrest execs pend plan].
+    + split; [reflexivity|]. split; [repeat split|]. split; [apply Em_direct; reflexivity|].
+      rewrite plan_weight_cons. cbn [len length Z.of_nat]. lia.
+    + split; [reflexivity|]. split; [repeat split|]. split; [eapply Em_wtx; reflexivity|].
+      rewrite plan_weight_cons, len_cons. lia.
 Qed.
 
 Section Card.
@@ -168,21 +171,19 @@ Proof.
 Qed.
 
 (* rule 3: the S(WTX) response *)
-Lemma picc_wtx_response c w ws nxt :
-  pend c = Some (w, ws, nxt) -> 4 <= cfsc kc ->
-  exists c', picc_absorb app kc c [242; w] = (c', Some (last c')) /\ same_core c c' /\ emitted nxt c' /\
-             wtx_weight c' < wtx_weight c.
+Lemma picc_wtx_response c w ws nxt c' r :
+  pend c = Some (w, ws, nxt) -> 4 <= cfsc kc -> picc_absorb app kc c [242; w] = (c', r) ->
+  r = Some (last c') /\ same_core c c' /\ emitted nxt c' /\ wtx_weight c' < wtx_weight c.
 Proof.
   intros Hp Hf. unfold picc_absorb.
   replace (len [242; w] + 2 >? cfsc kc) with false by (cbn; lia).
   change (Z.land 242 238 =? 2) with false. change (Z.land 242 238 =? 162) with false.
   change (242 =? 242) with true. cbv iota. rewrite Hp, Z.eqb_refl.
   unfold wtx_weight. rewrite Hp.
-  destruct ws as [|w2 ws'].
-  - eexists. split; [reflexivity|]. cbn [last bn rxbuf txrest execs pend plan]. split; [repeat split|].
-    split; [apply Em_direct; reflexivity|]. cbn. lia.
-  - eexists. split; [reflexivity|]. cbn [last bn rxbuf txrest execs pend plan]. split; [repeat split|].
-    split; [eapply Em_wtx; reflexivity|]. rewrite len_cons. lia.
+  destruct ws as [|w2 ws']; intro H; inversion H; subst; clear H; cbn [last bn rxbuf txrest execs pend plan].
+  - split; [reflexivity|]. split; [repeat split|]. split; [apply Em_direct; reflexivity|].
+    cbn [len length Z.of_nat]. lia.
+  - split; [reflexivity|]. split; [repeat split|]. split; [eapply Em_wtx; reflexivity|]. rewrite len_cons. lia.
 Qed.
 
 Lemma emitted_last_nonnil blk c : emitted blk c -> blk <> [] -> last c <> [].
